@@ -188,7 +188,8 @@ def replay(prop_id, path):
     return 0
 
 
-EXTRAS = {}
+from . import extras as _extras
+EXTRAS = {"C02": _extras.c02_extra, "C17": _extras.chars_extra, "C18": _extras.chars_extra}
 
 
 def check_special(prop_id, modname, tier, seed):
@@ -205,7 +206,7 @@ def check_special(prop_id, modname, tier, seed):
     return report.finish()
 
 
-SPECIAL = {"C19": "c19", "C15": "c15"}
+SPECIAL = {"C19": "c19", "C15": "c15", "C14": "c14", "C20": "c20"}
 
 
 def main(argv):
